@@ -243,6 +243,44 @@ PROPS["C18"] = dict(
     note="Structural enumeration (exhaustive: true) executed on the real SSA; reference = ordered replay in the harness.",
 )
 
+_my = dict(pkg="ariga.io/atlas/sql/mysql", hdir="mysql")
+_pg = dict(pkg="ariga.io/atlas/sql/postgres", hdir="postgres")
+_lt = dict(pkg="ariga.io/atlas/sql/sqlite", hdir="sqlite")
+PROPS["C15"] = dict(
+    _my,
+    runs={
+        "quick": [
+            dict(_my, harness="VerifHarness_C15_mysql", reach=["formatted", "format-error"]),
+            dict(_my, harness="VerifHarness_C15_mysql_witness", role="witness", key="C15-mysql-enum-quoting"),
+            dict(_pg, harness="VerifHarness_C15_postgres", reach=["formatted", "format-error"]),
+            dict(_lt, harness="VerifHarness_C15_sqlite", reach=["formatted"]),
+        ],
+        "thorough": [
+            dict(_my, harness="VerifHarness_C15_mysql2", reach=["formatted", "format-error"], cross=False),
+            dict(_my, harness="VerifHarness_C15_mysql_witness", role="witness", key="C15-mysql-enum-quoting"),
+            dict(_pg, harness="VerifHarness_C15_postgres", reach=["formatted", "format-error"]),
+            dict(_lt, harness="VerifHarness_C15_sqlite", reach=["formatted"]),
+        ],
+    },
+    bounds={
+        "quick": "MySQL: every type family of FormatType's switch, sizes/precision/scale/display width as symbolic integers in 0..12 (float precision "
+                 "0..30, time precision 0..7), unsigned / has-size / has-precision as symbolic booleans, enum and set with 1..2 values of 1 fully "
+                 "symbolic byte; PostgreSQL: 20 families incl. 9 array spellings, same integer ranges (float precision 0..60); SQLite: 35 type names x "
+                 "{no args, (n), (p,s)} x {lower, upper case}",
+        "thorough": "same with 2-byte enum/set values",
+    },
+    assumptions=[
+        "symbolic integers that reach fmt %d are case-split into their concrete values (so those parameters are enumerated inside each solver-decided class)",
+        "only the FormatType/ParseType fix-point is claimed; the HCL marshal/eval round trip is outside (see not-applicable note in DESIGN.md section 6)",
+    ],
+    outside="MarshalHCL / EvalHCLBytes, schemahcl.TypeRegistry, specutil conversions (reflection over struct tags and cty values: not encodable); "
+            "user-defined / composite / domain types that need a live database; parameter values beyond the ranges",
+    claim="For every type of each dialect's catalogue within the parameter ranges, FormatType(ParseType(FormatType(t))) == FormatType(t), the "
+          "formatted type parses to a supported built-in type, and a second round is idempotent. MySQL ENUM/SET values containing quotes, commas "
+          "or backslashes are the listed known finding.",
+    note="Slice of C15 only (type format/parse fix-point). Bounded parameter ranges; structural choice of the type family by forking.",
+)
+
 NOT_APPLICABLE = {
     "C01": "needs a real SQLite engine executing the planned SQL and pragma-based inspection; neither cgo code nor SQLite's DDL "
            "semantics can be encoded by an SSA-level symbolic executor, and a hand-written catalogue model would verify the model, not Atlas "
